@@ -18,6 +18,12 @@ Definition written (h : list event) : content :=
    line, rlen = its byte length); `handed` are the lines as they are when the worker writes them. *)
 Definition frontend_ok (accepted handed : content) : Prop := handed = accepted.
 
+(* The queue between Write and the worker (channel of bufferSize slices): a Write that returns (len, nil) has
+   queued its record, however far the worker lags -- it blocks rather than drop. The histories of the model are
+   therefore exactly the accepted records in order of acceptance; the correspondence checks it with backlogs of
+   150-260 records against a parked worker (Exec.spec_ok counts every accepted record, processed or not). *)
+Definition queue_ok (accepted processed_eventually : content) : Prop := processed_eventually = accepted.
+
 (* where the chunk that was rotated into backup F is: still the plain file F; or -- F being gone --
    gzipped once under F.gz, or removed by clean-up (as F or as F.gz) with exactly that content *)
 Definition located (s : state) (F : name) (c : content) : Prop :=
